@@ -158,6 +158,17 @@ func findKnown(known []KnownFinding, prop, obl string) *KnownFinding {
 // runWitness runs a witness test (in-package, injected with -overlay) against
 // the real code; it passes iff the recorded defect is still present.
 func runWitness(opts *RunOpts, k *KnownFinding) (bool, string) {
+	ok, out := runWitnessOnce(opts, k)
+	if !ok && k.WitnessRace {
+		// a data race shows up with high but not certain probability in one run
+		for i := 0; i < 3 && !ok; i++ {
+			ok, out = runWitnessOnce(opts, k)
+		}
+	}
+	return ok, out
+}
+
+func runWitnessOnce(opts *RunOpts, k *KnownFinding) (bool, string) {
 	if k.Witness == "" {
 		return false, "no witness recorded"
 	}
